@@ -105,11 +105,21 @@ def to_impl(case):
 
 
 def to_model(case):
-    return {'op': 'asm', 'cfg': case['cfgm'], 'files': [case['stmts']], 'start': case['start'], 'fill': 0}
+    # the structured program, and the very source text the real assembler reads (parsed by the Lean front end)
+    return [{'op': 'asm', 'cfg': case['cfgm'], 'files': [case['stmts']], 'start': case['start'], 'fill': 0},
+            {'op': 'asmtext', 'cfg': case['cfgm'], 'files': [{'name': 'main.asm', 'text': case['text']}], 'start': case['start'],
+             'fill': 0}]
 
 
-def judge(case, ir, mr, pid):
+def judge(case, ir, mrs, pid):
+    mr, mt = mrs
     tags = ['isa-program']
+    # model-side tie: parsing the rendered text must give the program the structured route assembles
+    if ('err' in mr) != ('err' in mt) or mr.get('image') != mt.get('image'):
+        return {'verdict': Verdict.CORR, 'tags': tags,
+                'detail': f'model front end: text route {mt.get("err") or mt.get("image")} != structured route '
+                          f'{mr.get("err") or mr.get("image")}; asm={case["text"]!r}'[:1500]}
+    tags.append('text-route=structured-route')
     det = f'asm={case["text"]!r} macros={case["isa"].get("macros")}'[:1500]
     if ir['status'] == 'timeout':
         return {'verdict': Verdict.VIOLATION, 'detail': 'no termination; ' + det, 'tags': tags}
